@@ -33,7 +33,7 @@ N=-1
 for d in /verif/seeded/*/; do
   id=$(basename $d)
   N=$((N+1)); [ $((N % NSHARDS)) = "$SHARD" ] || continue
-  FEAT=$(python3 -c "import json;f=json.load(open('$d/meta.json')).get('features');print('--features '+f if f else '')")
+  FEAT=$(python3 -c "import json;m=json.load(open('$d/meta.json'));f=m.get('features') or ('atari2600' if 'atari2600' in m.get('demo_needs','') else '');print('--features '+f if f else '')")
   git checkout -q -- .; git apply --whitespace=nowarn $d/patch.diff || { echo "$id: PATCH DOES NOT APPLY"; continue; }
   a=$(cargo test --offline $FEAT 2>&1 | grep "^test result" | head -1 | sed 's/; 0 ignored.*//')
   add_demo $d
